@@ -50,6 +50,31 @@ def _density_scaling(keys):
     return h
 
 
+def _formula_object_density(keys):
+    """density= applies also when the compound is a Formula object that already carries a density"""
+    def h(E):
+        from periodictable import nsf, formulas
+        T, atoms, data, counts = _mk(E, keys, 'c04')
+        own = E.real('rho_own', lo=0, lo_open=True, hi=25)
+        f = formulas.formula(list(zip(counts, atoms)), density=own)
+        g = formulas.formula(list(zip(counts, atoms)))
+        rho = E.real('rho', lo=0, lo_open=True, hi=25)
+        k = E.real('k', lo=0, lo_open=True, hi=100)
+        lam = E.real('lam', lo=0.05, hi=50)
+        a = flat(nsf.neutron_scattering(f, density=rho, wavelength=lam))
+        b = flat(nsf.neutron_scattering(g, density=rho, wavelength=lam))
+        c = flat(nsf.neutron_scattering(f, density=k * rho, wavelength=lam))
+        for n, x, y in zip(NAMES, a, b):
+            E.eq('density_keyword_overrides_formula_density.' + n, x, y)
+        for n, x, y in zip(NAMES[:6], a, c):
+            E.eq('scale_density_formula_object.' + n, y, k * x)
+        d = flat(nsf.neutron_scattering(f, wavelength=lam))
+        e = flat(nsf.neutron_scattering(g, density=own, wavelength=lam))
+        for n, x, y in zip(NAMES, d, e):
+            E.eq('formula_density_used_when_no_keyword.' + n, x, y)
+    return h
+
+
 def _count_scaling(keys):
     def h(E):
         from periodictable import nsf, formulas
@@ -218,6 +243,8 @@ def cases(tier):
         out.append(Case('count_scaling[%s]' % nm, _count_scaling(ks), max_paths=mp, timeout_ms=to, portfolio=th))
         out.append(Case('energy_vs_wavelength[%s]' % nm, _energy_vs_wavelength(ks), max_paths=mp, timeout_ms=to, portfolio=th))
         out.append(Case('nonneg[%s]' % nm, _nonneg(ks), max_paths=mp, timeout_ms=to, portfolio=th))
+    out.append(Case('formula_object_density[X+Y]', _formula_object_density(('X', 'Y')), max_paths=mp, timeout_ms=to, portfolio=th))
+    out.append(Case('formula_object_density[Xiq]', _formula_object_density(('Xiq',)), max_paths=mp, timeout_ms=to, portfolio=th))
     for sh in ['reorder', 'group', 'nested', 'repeat', 'group_reorder']:
         out.append(Case('regroup[%s]' % sh, _regroup(sh), max_paths=mp * 2, timeout_ms=to, portfolio=th))
     out.append(Case('conversions', _conversions, max_paths=16, timeout_ms=to))
